@@ -347,7 +347,7 @@ impl C15 {
         }
     }
 
-    fn run_l4(&self, key: &str, dir: &str, ext: &str, host: &str, feats: &[String], fs: &mut Vec<Failure>, tr: &mut u64) -> String {
+    fn run_l4(&self, key: &str, dir: &str, ext: &str, host: &str, case_kind: &str, feats: &[String], fs: &mut Vec<Failure>, tr: &mut u64) -> String {
         let n = note_in(dir);
         let url = match guarded(|| raw_key(key).to_rel_link_url(dir)) {
             Ok(u) => u,
@@ -357,7 +357,11 @@ impl C15 {
             }
         };
         // where the reference stands in the note: the writer has one code path per container
-        let link = format!("[t]({}{})", url, ext);
+        let link = match opt_field(case_kind, "kind") {
+            "wiki" => format!("[[{}]]", url),
+            "wikip" => format!("[[{}|t]]", url),
+            _ => format!("[t]({}{})", url, ext),
+        };
         let text = match host {
             "quote" => format!("# note\n\n> {}\n", link),
             "item" => format!("# note\n\n- x\n\n  {}\n", link),
@@ -602,7 +606,7 @@ impl Engine for C15 {
         "C15"
     }
     fn rule(&self) -> String {
-        "path shapes, exhaustively: every (note key K, linking directory D) over segments {a,b} up to the depth bound (D includes the root) — equal, nested either way, siblings, disjoint — and every link url of <= 4 segments over {a,b,.,..} with/without `.md`, `./` prefix, `.md.md`, from every D. Reference reader (shares no code with iwe): oracle::resolve (split on '/', `.`/`..`, strip one `.md`); a url names a note only if its last segment is a name (an empty url, `.md`, a trailing `.` or `..` name a directory). Laws without expected literals: L1 the url K.to_rel_link_url(D) names K for the reference reader and from_rel_link_url reads it back as K; L2 re-writing a read link from the same directory (to_rel(from_rel(u,D),D)) names the same note as u; L3 from_rel_link_url(u,D) == oracle::resolve(D,u); L2d formatting (Graph::import/export) a note D/n that consists of the block reference `[t](u)` keeps its target (own link scanner + reader) and indexes it as a block reference to that target; L4 a note D/n that block-references K with the url iwe writes (refs_extension \"\" and \".md\"; the reference under a heading, at the top, in a quote, in a list item, in an item of a quoted list, in a nested quote) is a reference to K after import (get_block_references_to), its export names K, the re-import still references K, second export == first; LC the completion item offered in D/n for K inserts a link that names K and reads back as K; LX 'Extract section' in D/n leaves a reference that names the created note; LR after an LSP rename of K (new names `z` and `b/z`) the block reference and the inline link of D/n are re-written so that, from D, they name the key under which the note now exists. Don't-care: urls that climb above the root (all laws), urls that name the root or a directory (L2, L2d; L3 only the root). non-trivial = the case is outside the don't-care zone and a url/key produced by the real code was judged".into()
+        "path shapes, exhaustively: every (note key K, linking directory D) over segments {a,b} up to the depth bound (D includes the root) — equal, nested either way, siblings, disjoint — and every link url of <= 4 segments over {a,b,.,..} with/without `.md`, `./` prefix, `.md.md`, from every D. Reference reader (shares no code with iwe): oracle::resolve (split on '/', `.`/`..`, strip one `.md`); a url names a note only if its last segment is a name (an empty url, `.md`, a trailing `.` or `..` name a directory). Laws without expected literals: L1 the url K.to_rel_link_url(D) names K for the reference reader and from_rel_link_url reads it back as K; L2 re-writing a read link from the same directory (to_rel(from_rel(u,D),D)) names the same note as u; L3 from_rel_link_url(u,D) == oracle::resolve(D,u); L2d formatting (Graph::import/export) a note D/n that consists of the block reference `[t](u)` keeps its target (own link scanner + reader) and indexes it as a block reference to that target; L4 a note D/n that block-references K with the url iwe writes (refs_extension \"\" and \".md\"; the reference under a heading, at the top, in a quote, in a list item, in an item of a quoted list, in a nested quote; as `[t](url)`, `[[url]]` and `[[url|t]]`) is a reference to K after import (get_block_references_to), its export names K, the re-import still references K, second export == first; LC the completion item offered in D/n for K inserts a link that names K and reads back as K; LX 'Extract section' in D/n leaves a reference that names the created note; LR after an LSP rename of K (new names `z` and `b/z`) the block reference and the inline link of D/n are re-written so that, from D, they name the key under which the note now exists. Don't-care: urls that climb above the root (all laws), urls that name the root or a directory (L2, L2d; L3 only the root). non-trivial = the case is outside the don't-care zone and a url/key produced by the real code was judged".into()
     }
     fn bound(&self, tier: Tier) -> String {
         let d = depth(tier);
@@ -645,6 +649,12 @@ impl Engine for C15 {
                 emit(&format!("L4|key={}|dir={}|ext=.md", k, d));
                 for h in ["quote", "item", "quote-item", "quote-quote", "top"] {
                     emit(&format!("L4|key={}|dir={}|ext=|host={}", k, d, h));
+                }
+                // the reference written as a wiki-link
+                for kind in ["wiki", "wikip"] {
+                    for h in ["", "quote", "item"] {
+                        emit(&format!("L4|key={}|dir={}|ext=|host={}|kind={}", k, d, h, kind));
+                    }
                 }
                 emit(&format!("LC|key={}|dir={}", k, d));
             }
@@ -698,7 +708,7 @@ impl Engine for C15 {
         let dir = field(case, "dir");
         let (outcome, nontrivial) = match law.as_str() {
             "L1" => (self.run_l1(field(case, "key"), dir, &feats, &mut fs, &mut tr), true),
-            "L4" => (self.run_l4(field(case, "key"), dir, field(case, "ext"), opt_field(case, "host"), &feats, &mut fs, &mut tr), true),
+            "L4" => (self.run_l4(field(case, "key"), dir, field(case, "ext"), opt_field(case, "host"), case, &feats, &mut fs, &mut tr), true),
             "LC" => (self.run_lc(field(case, "key"), dir, &feats, &mut fs, &mut tr), true),
             "LX" => (self.run_lx(dir, &feats, &mut fs, &mut tr), true),
             "LR" => (self.run_lr(field(case, "key"), dir, field(case, "new"), &feats, &mut fs, &mut tr), true),
